@@ -551,7 +551,7 @@ func runAllocHistory(r *vkit.R, h *allocHistory, g *vkit.Rand) {
 				bc = cfg.LB
 			}
 			if float64(n) > bound(qc, bc) {
-				r.Violation("C09/allocate-tokenbucket/fallback-not-local/failing-after-sync",
+				r.Violation(fmt.Sprintf("C09/allocate-tokenbucket/fallback-not-local/failing-after-sync/%s/%s", position, gc),
 					fmt.Sprintf("token-bucket schema local=(%d,%d) global=(%d,%d): server failing at step %d after grant (%d,%d); %d admitted within %.6fs exceeds both the local bucket and the last granted one", cfg.L, cfg.LB, cfg.G, cfg.GB, si, last.q, last.b, n, dt), trimmed(h, si))
 				return
 			}
